@@ -66,6 +66,7 @@ def shards(tier, seed):
     out.append(("nospec",))
     out += [("width", sz) for sz in WIDTH_SIZES]
     out.append(("manyspecs",))
+    out.append(("repeat",))
     return out
 
 
@@ -210,6 +211,22 @@ def run_shard(desc, tier):
                 judge_grammar(specs, size, RR.header_text(specs), r)
                 judge_grammar(tail + windows, size, RR.header_text(tail + windows), r)
         r.sample({"size": size, "specs": "n one-byte windows + one closing spec", "n": counts[-5:]})
+    elif kind == "repeat":
+        # the same header presented again (a client retrying), right after another one: the answer depends on (header, size) only
+        size = 10
+        heads = ["bytes=0-4", "bytes=0-1,5-6", "bytes=-3", "bytes=3-", "bytes=20-", "bytes=9-3", "bytes=-0", "junk", "bytes=", "bytes=0-4,20-", "bytes=5-2,0-1", "bytes=0-0,2-2,4-4"]
+        first = {(h, sz): _call(h, sz) for h in heads for sz in (size, 7)}
+        for a in heads:
+            for b in heads:
+                for sa, sb in ((size, size), (size, 7), (7, size)):
+                    _call(a, sa)
+                    got1, got2 = _call(b, sb), _call(b, sb)
+                    r.count("evaluations", 3)
+                    r.count("distinct_nontrivial")
+                    if got1 != first[(b, sb)] or got2 != first[(b, sb)]:
+                        r.violation("repeat:answer-depends-on-history", {"header": b, "size": sb, "before": a, "before_size": sa},
+                                    f"parse_range({b!r}, {sb}) right after parse_range({a!r}, {sa}): {got1!r:.80}, and once more: {got2!r:.80}; in a fresh sequence it gave {first[(b, sb)]!r:.80}")
+        r.sample({"repeat": heads[:4], "sizes": [10, 7]})
     elif kind == "chain":
         for n in range(4, len(CHAIN) + 1):
             for sub in itertools.combinations(CHAIN, n):
@@ -252,6 +269,9 @@ def finish(merged, tier):
 
 
 def replay(w):
+    if "before" in w:
+        rr = run_shard(("repeat",), "quick")
+        return bool(rr.viol), {"violations": sorted(rr.viol)}
     got = _call(w["header"], w["size"])
     r = R()
     # re-judge: grammar-conforming headers are re-parsed by the reference's own tiny parser
